@@ -540,6 +540,24 @@ impl World {
         if rs.blocks.len() != ndelta {
             self.res.viol("C11", "block-unparseable-by-reference", format!("r{}: {} of {} parse", i, rs.blocks.len(), ndelta));
         }
+        // C15: the stage export must be self-contained with respect to this replica's storage: every object
+        // a staged change record names is special, or exported under "o", or held by a valid stored pack
+        if let Some(st) = &after.stage {
+            if let Ok(v) = serde_json::from_str::<Value>(st) {
+                let objs = v.get("o").and_then(|o| o.as_object());
+                if let Some(recs) = v.get("c").and_then(|c| c.as_array()) {
+                    for rec in recs {
+                        if let Some(d) = rec.as_array().and_then(|a| a.last()).and_then(|x| x.as_str()) {
+                            let ok = refmodel::special(d) || objs.map(|o| o.contains_key(d)).unwrap_or(false) || rs.avail.contains(d);
+                            if !ok {
+                                self.res.viol("C15", "stage-export-misses-a-staged-object", format!("r{}: change {} names digest {} which is neither exported nor in any stored pack", i, rec, d));
+                            }
+                            self.res.count("c15_export_records_checked", 1);
+                        }
+                    }
+                }
+            }
+        }
         let rep = &self.reps[i];
         let behind = rep.behind;
         let travelled = rep.travelled.clone();
@@ -1139,9 +1157,48 @@ impl World {
             return false;
         }
         let before = self.reps[i].cur.clone();
-        self.t(format!("r{}.meld(r{})", i, j));
+        if self.prof.self_meld && self.r.chance(6) {
+            // a second handle opened on this replica's own storage, melded in both directions: both know the
+            // same storage, except what the live handle has not refreshed yet; must return and copy nothing new
+            match open_with(&self.reps[i].ad, self.reps[i].caps) {
+                Outcome::Ok(twin) => {
+                    self.t(format!("r{}.meld(second handle on the same storage) and back", i));
+                    let m = &self.reps[i].m;
+                    let keys_before: BTreeSet<String> = store::dump(&self.reps[i].ad).keys().cloned().collect();
+                    let r1 = guard(|| m.meld(&twin));
+                    let r2 = guard(|| twin.meld(m));
+                    self.res.feat_add("twin_handle_melds", 1);
+                    for r in [r1, r2] {
+                        match r {
+                            Outcome::Ok(_) => {}
+                            Outcome::Err(e) => self.res.viol("C08", "twin-handle-meld-returned-error", e),
+                            Outcome::Panic(p) => self.panic_viol("C08", "twin-handle-meld", &p),
+                        }
+                    }
+                    let keys_after: BTreeSet<String> = store::dump(&self.reps[i].ad).keys().cloned().collect();
+                    if keys_after != keys_before {
+                        self.res.viol("C11", "meld-between-handles-on-one-storage-wrote-items", format!("{:?}", keys_after.difference(&keys_before).collect::<Vec<_>>()));
+                    }
+                }
+                o => self.res.viol("C03", "second-handle-open-failed", o.describe()),
+            }
+            set_caps(self.reps[i].caps);
+            return false;
+        }
+        // sometimes the destination refuses a class of writes during this meld (which items a meld writes
+        // first depends on their names, which differ from run to run, so the fault is chosen by kind)
+        let inject = self.r.chance(self.prof.fault_pct / 2);
+        let which = ["", ".pack", ".delta"][self.r.below(3)];
+        if inject {
+            *self.reps[i].st.fail_suffix.lock().unwrap() = Some(which.to_string());
+        }
+        self.t(format!("r{}.meld(r{}){}", i, j, if inject { format!(" [every *{} write of this meld fails]", which) } else { String::new() }));
         let (a, b) = self.two(i, j);
         let res = guard(|| a.m.meld(&b.m));
+        if inject {
+            *self.reps[i].st.fail_suffix.lock().unwrap() = None;
+            self.res.feat_add("melds_with_write_failure", 1);
+        }
         match res {
             Outcome::Ok(items) => {
                 self.res.count("meld_items", items.len() as u64);
@@ -1440,6 +1497,14 @@ impl World {
                 }
             } else if nv != chosen_val {
                 self.res.viol("C07", "value-not-as-chosen", format!("{}: {:?} vs {:?}", u, nv, chosen_val));
+            }
+        } else if is_deleted_rev(chosen) {
+            // an array descriptor resolved in favour of its deletion stays deleted
+            self.res.feat_add("deleted_leaf_chosen", 1);
+            self.res.feat_add("deleted_array_leaf_chosen", 1);
+            let nw = after.objects.get(u).map(|o| o.winner.clone()).unwrap_or_default();
+            if !is_deleted_rev(&nw) {
+                self.res.viol("C07", "deleted-array-choice-not-deleted", format!("{}: chose {} but the winner is now {}", u, chosen, nw));
             }
         } else if let (Some(lo), true) = (chosen_order, after.doc_ok) {
             // surviving elements of the chosen leaf keep its relative order
